@@ -742,6 +742,94 @@ def rule_rhocut(chk, cx):
     chk.floor("cutoff", 5, "density/cutoff comparisons on the NLDF exponent chain and in the two kernel evaluators")
 
 
+TR = "ciderpress/models/train.py"
+
+
+def rule_train_cutoff(chk, cx):
+    """Training twin of `cutoff`: the low-density screens of the covariance builders in models/train.py compare a
+    density with a literal threshold.  With the features typed by role (the array returned by the feature
+    normaliser: feature 0 = nspin * n_s, N^1; the tuple returned by get_rho_tuple_with_grad_cross: raw per-spin
+    density, N^0, computed by interpreting that function; `.sum(0)` over the spin axis multiplies by N), every
+    screened quantity must be nspin-equivalent to the total density (N^1), for SEP and NPOL/POL alike."""
+    s0 = deg.Session(chk.tree, [TR, PL, ST, FN], poly_names=(), calls=STUBS, hooks_cls=PlanHooks)
+    eng = s0.eng
+    mod = s0.prog.module(TR)
+    n_fun = n_cmp = 0
+    for cname, cls in mod.classes.items():
+        for mname, fdef in pf.methods(cls).items():
+            env = deg.Env()
+            roles = 0
+            eng.frames.append(deg.Frame(fdef, mod))
+            try:
+                for st in ast.walk(fdef):
+                    if isinstance(st, ast.Assign) and len(st.targets) == 1 and isinstance(st.targets[0], ast.Name) \
+                            and isinstance(st.value, ast.Call):
+                        cn = (pf.call_name(st.value) or "").split(".")[-1]
+                        if "normalized_feature" in cn and "deriv" not in cn:
+                            X = rows(1, {0: q(c=1, N=1)}, default=q())
+                            X.shape = Tup([NSPIN, sym("nfeat"), sym("n")])
+                            env[st.targets[0].id] = X
+                            roles += 1
+                        elif cn == "get_rho_tuple_with_grad_cross":
+                            rd = rows(1, {i: q(c=1) for i in range(5)})
+                            rd.shape = Tup([NSPIN, num(5), sym("n")])
+                            fn = s0.hooks.func(PL, cn)
+                            r = eng.call_function(fn, [rd], {"is_mgga": K(True)}, st.value)
+                            env[st.targets[0].id] = r
+                            roles += 1
+                if not roles:
+                    continue
+                found = 0
+                for n in ast.walk(fdef):
+                    if not (isinstance(n, ast.Compare) and len(n.ops) == 1 and isinstance(n.ops[0], (ast.Lt, ast.LtE, ast.Gt, ast.GtE))):
+                        continue
+                    sides = [n.left, n.comparators[0]]
+
+                    def thr(x):
+                        """numeric value of a literal threshold: a literal, a module-level or class-level constant"""
+                        v = None
+                        if isinstance(x, ast.Constant):
+                            v = x.value
+                        elif isinstance(x, ast.Name) and x.id in mod.assigns:
+                            v = mod.assigns[x.id]
+                        elif isinstance(x, ast.Attribute) and isinstance(x.value, ast.Name) \
+                                and x.value.id in ("self", "cls", cname):
+                            r_ = s0.prog.find_class_attr(mod, cls, x.attr)
+                            v = r_[2] if r_ else None
+                        if isinstance(v, ast.AST):
+                            try:
+                                v = pf.literal(v)
+                            except Exception:
+                                v = None
+                        return v if isinstance(v, float) and 0 < v <= 1e-3 else None
+                    lit = [x for x in sides if thr(x) is not None]
+                    if len(lit) != 1:
+                        continue
+                    other = sides[1] if sides[0] is lit[0] else sides[0]
+                    v = eng.eval_expr(other, env)
+                    if not (isinstance(v, Q) and not v.is_rows and v.deg is not ANY and v.deg.get("c") == Lin.const(1)):
+                        continue
+                    found += 1
+                    n_cmp += 1
+                    k = v.deg.get("N")
+                    txt = core.norm_text(pf.src(n))
+                    inst = "%s.%s: `%s` screens nspin^(%s) * rho_s" % (cname, mname, txt, k)
+                    if k == Lin.const(1):
+                        chk.ok("cutoff", inst)
+                    else:
+                        chk.violation("cutoff", TR, "%s.%s" % (cname, mname), txt, n.lineno,
+                                      "the screened quantity is nspin^(%s) * (per-spin density) compared with the literal "
+                                      "threshold %s, i.e. the threshold acts on nspin^(%s) * n instead of the total density "
+                                      "n: a closed-shell system stored with nspin=1 and with two equal channels is screened "
+                                      "at different densities" % (k, thr(lit[0]), k - Lin.const(1)), instance=inst)
+                n_fun += 1 if found else 0
+            finally:
+                eng.frames.pop()
+    if n_fun < 2 or n_cmp < 3:
+        raise core.AnalysisError("density screens of the covariance builders in %s not found (%d functions, %d "
+                                 "comparisons)" % (TR, n_fun, n_cmp))
+
+
 # ----------------------------------------------------------------------------------------------------------
 def rule_exponent(chk, cx):
     sT = deg.Session(chk.tree, [ST], hooks_cls=TwoHooks)
@@ -1328,6 +1416,7 @@ def _analyse_own(chk):
     chk.guard(rule_baselines, cx)
     chk.guard(rule_normalizer_inputs, cx)
     chk.guard(rule_rhocut, cx)
+    chk.guard(rule_train_cutoff, cx)
     chk.guard(rule_exponent, cx)
     chk.guard(rule_sep2, cx)
     chk.guard(rule_spin_mirror, cx)
@@ -1448,6 +1537,10 @@ def mutants(tree):
                "double bb = _evaluate_se(xin_b + iloc, xctrl_b + cloc, exps, nfeat);\n            double aabb",
                "double bb = _evaluate_se(xin_b + iloc, xctrl_b + cloc, exps, nfeat);\n            if (aa + bb > 36) continue;\n            double aabb",
                expect="c-spin-mirror"),
+        Mutant("revert dcbc797 (MOLGP): NPOL screen on the spin sum of the density feature", TR,
+               "cond = X0T[:, 0].mean(0) < 1e-6", "cond = X0T[:, 0].sum(0) < 1e-6", expect="cutoff"),
+        Mutant("revert dcbc797 (MOLGP2): SEP screen on the raw per-spin density", TR,
+               "cond = rho_tuple[0].shape[0] * rho_tuple[0] < 1e-6", "cond = rho_tuple[0] < 1e-6", expect="cutoff"),
         Mutant("nelec of channel b accumulates den_a", NI, "nelec[1, i] += den_b.sum()", "nelec[1, i] += den_a.sum()",
                expect="ab-sym"),
         Mutant("NLDF eval_rho_full nspin factor removed (forward only)", PL, "        feat[:] *= self.nspin\n        # dfeat",
